@@ -308,7 +308,17 @@ impl<'a> G<'a> {
                 11 if f.stray && self.r.chance(1, 4) => {
                     // an inline element closed inside a block that was opened after it: the parser repairs it
                     let (inl, blk) = (*self.r.pick(&["em", "strong", "code", "s", "b"]), *self.r.pick(&["p", "div", "blockquote"]));
+                    // (sometimes with a table in between whose stray text the parser moves in front of it: two repairs on one node)
+                    if f.tables && self.r.chance(1, 3) {
+                        let (a, b, c) = (self.token(), self.token(), self.token());
+                        match self.r.below(3) {
+                            0 => N::Raw(format!("<{inl}><{blk}><table>{a}<tr><td>{b}</td></tr></table></{inl}> {c}</{blk}>")),
+                            1 => N::Raw(format!("<{inl}><{blk}><table><tr>{a}<td>{b}</td></tr></table></{inl}>{c}</{blk}>")),
+                            _ => N::Raw(format!("<{blk}><{inl}><table>{a}</table></{blk}>{b}</{inl}> {c}")),
+                        }
+                    } else {
                     N::Raw(format!("<{inl}><{blk}>{} {}</{inl}> {}</{blk}>", self.token(), self.token(), self.token()))
+                    }
                 }
                 11 => N::el(*self.r.pick(&["section", "article", "u", "center"]), self.flow(depth + 1)),
                 _ => continue,
